@@ -21,7 +21,7 @@ def md_parser(config_kwargs: dict):
 def alt_text(node) -> str:
     out = []
     for ch in node.children or []:
-        if ch.type in ("text", "code_inline"):
+        if ch.type in ("text", "code_inline", "text_special"):
             out.append(ch.content)
         elif ch.type in ("softbreak", "hardbreak"):
             out.append("\n")
